@@ -2858,5 +2858,61 @@ def _constructor_family():
 _constructor_family()
 
 
+def _container_family():
+    """dict- and list-valued options in every degree of completeness: complete, one entry missing, empty, with a
+    surplus entry; lists too short / too long; None.  Many of these calls raise (KeyError / IndexError /
+    ValueError): the property speaks about 'returns (or raises)', the snapshots are compared either way."""
+    dicts = {"full": "{1: @X@, 8: @X@}", "missing": "{1: @X@}", "missing_first": "{8: @X@}", "empty": "{}", "surplus": "{1: @X@, 8: @X@, 6: @X@}"}
+    lists = {"full": "[@X@, @X@]", "short": "[@X@]", "long": "[@X@, @X@, @X@]", "empty": "[]"}
+    forms = {f"dict_{k}": v for k, v in dicts.items()}
+    forms.update({f"list_{k}": v for k, v in lists.items()})
+    forms["none"] = "None"
+    reg_forms = {"dict_missing", "dict_empty", "dict_missing_first", "list_short", "none"}
+    for fn, fsrc in forms.items():
+        tier = "regular" if fn in reg_forms else "targeted"
+        rgsrc = fsrc.replace("@X@", "rg")
+        # radial grids per atom / per element
+        _T("molgrid.MolGrid.from_preset", f"var_rgrid_{fn}", _MOL + f"rgrids = {rgsrc}\n",
+           "MolGrid.from_preset(atnums, atcoords, 'coarse', rgrid=rgrids, rotate=0)", ["atnums", "atcoords", "rgrids"], _PM, _VM, tier=tier)
+        _T("molgrid.MolGrid.from_pruned", f"var_rgrid_{fn}", _MOL + f"rgrids = {rgsrc}\nr_sectors = [[0.5, 1.0], [0.5, 1.0]]\nd_sectors = [[3, 5, 3], [3, 7, 3]]\n",
+           "MolGrid.from_pruned(atnums, atcoords, 1.0, r_sectors, d_sectors, rgrid=rgrids, rotate=0)", ["atnums", "atcoords", "r_sectors", "d_sectors", "rgrids"], _PM, _VM, tier=tier)
+        if fn != "none":
+            prsrc = fsrc.replace("@X@", "'coarse'")
+            _T("molgrid.MolGrid.from_preset", f"var_preset_{fn}", _MOL + f"preset = {prsrc}\n",
+               "MolGrid.from_preset(atnums, atcoords, preset, rgrid=rg, rotate=0)", ["atnums", "atcoords", "preset", "rg"], _PM, _VM, tier=tier)
+            _T("molgrid.MolGrid.from_preset", f"var_preset_{fn}_default_rgrid", _RS + "atnums = np.array([1, 8])\natcoords = np.array([[0.0, 0.0, -0.7], [0.0, 0.1, 0.7]])\n" + f"preset = {prsrc}\n",
+               "MolGrid.from_preset(atnums, atcoords, preset, rotate=0)", ["atnums", "atcoords", "preset"], None, None, tier="targeted")
+    for fn, fsrc in forms.items():
+        if not fn.startswith("list") and fn != "none":
+            continue
+        tier = "regular" if fn in ("list_short", "list_long") else "targeted"
+        if fn != "none":
+            _T("molgrid.MolGrid.from_pruned", f"var_sectors_{fn}", _MOL + "r_sectors = " + fsrc.replace("@X@", "[0.5, 1.0]") + "\nd_sectors = " + fsrc.replace("@X@", "[3, 5, 3]") + "\n",
+               "MolGrid.from_pruned(atnums, atcoords, 1.0, r_sectors, d_sectors, rgrid=rg, rotate=0)", ["atnums", "atcoords", "r_sectors", "d_sectors", "rg"], _PM, _VM, tier=tier)
+            _T("molgrid.MolGrid.from_pruned", f"var_radius_{fn}", _MOL + "radius = " + fsrc.replace("@X@", "0.9") + "\nr_sectors = [[0.5, 1.0], [0.5, 1.0]]\ns_sectors = [[6, 14, 6], [6, 14, 6]]\n",
+               "MolGrid.from_pruned(atnums, atcoords, radius, r_sectors, s_sectors=s_sectors, rgrid=rg, rotate=0)", ["atnums", "atcoords", "radius", "r_sectors", "s_sectors", "rg"], _PM, _VM, tier=tier)
+            _T("molgrid.MolGrid.__init__", f"var_atgrids_{fn}", _MOL + "atgrids = " + fsrc.replace("@X@", "ag1") + "\n",
+               "MolGrid(atnums, atgrids, BeckeWeights(order=2), store=True)", ["atnums", "atgrids"], _PM, _VM, tier=tier)
+    # default radial grids (rgrid=None) for the other constructors, one and several atoms, repeated elements
+    for nm, nums in (("h2o", "[8, 1, 1]"), ("one", "[6]")):
+        base = _RS + f"atnums = np.array({nums})\natcoords = rs.uniform(-1.0, 1.0, (len(atnums), 3))\n"
+        _T("molgrid.MolGrid.from_size", f"var_default_rgrid_{nm}", base, "MolGrid.from_size(atnums, atcoords, 6, rotate=0)", ["atnums", "atcoords"], None, None, tier="regular" if nm == "one" else "targeted")
+        _T("molgrid.MolGrid.from_preset", f"var_default_rgrid_{nm}", base, "MolGrid.from_preset(atnums, atcoords, 'coarse', rotate=0)", ["atnums", "atcoords"], None, None, tier="regular" if nm == "one" else "targeted")
+        _T("molgrid.MolGrid.from_preset", f"var_rgrid_dict_empty_{nm}", base + "rgrids = {}\n", "MolGrid.from_preset(atnums, atcoords, 'coarse', rgrid=rgrids, rotate=0)", ["atnums", "atcoords", "rgrids"], None, None, tier="targeted")
+    # Becke radii dictionaries
+    for fn, fsrc in dicts.items():
+        _T("becke.BeckeWeights.__init__", f"var_radii_{fn}", _RS + "radii = " + fsrc.replace("@X@", "0.8") + "\npts = rs.uniform(-1, 1, (9, 3))\natcoords = np.array([[0.0, 0.0, -0.7], [0.0, 0.1, 0.7]])\natnums = np.array([1, 8])\n",
+           "BeckeWeights(radii, order=2).generate_weights(pts, atcoords, atnums, select=0)", ["radii", "pts", "atcoords", "atnums"], None, None,
+           also=["becke.BeckeWeights.generate_weights"], tier="regular" if fn in ("missing", "empty") else "targeted")
+    # option dicts forwarded through **kwargs
+    for fn, d in (("empty", "{}"), ("tol", "{'tol': 1e-3}"), ("full", "{'tol': 1e-3, 'max_nodes': 3000, 'no_derivatives': True}")):
+        _T("robust_poisson.solve_poisson_robust", f"var_opts_{fn}", _PAGS + "atnums = np.array([1])\natcoords = np.array([[0.0, 0.0, 0.0]])\node_params = " + d + "\n",
+           "solve_poisson_robust(ag, fv, tf, atnums, atcoords, include_origin=False, remove_large_pts=10.0, ode_params=ode_params)",
+           ["ag", "fv", "tf", "atnums", "atcoords", "ode_params", "tp"], _PP, _VPP, follow=[("robust_poisson.solve_poisson_robust.total_potential", "result(tp)")], tier="regular" if fn == "tol" else "targeted")
+
+
+_container_family()
+
+
 if __name__ == "__main__":
     sys.exit(main())
